@@ -9,7 +9,7 @@ RULES = [
     (r"^runExecWithRetries$", "C02 C07 C11 C20"),
     (r"^runBatchSequential$", "C06 C07 C08 C09 C11"),
     (r"^markUnprocessed$", "C09 C11"),
-    (r"^runBatch$", "C06 C07 C09 C11 C18 C19"),
+    (r"^runBatch$", "C06 C07 C08 C09 C11 C18 C19"),
     (r"^runBatchConcurrent$", "C02 C06 C07 C08 C09 C11"),
     (r"^Flow_Exec$", "C03 C04 C05 C10 C18"),
     (r"^Flow_Run$", "C01 C02 C03 C04 C05 C10 C18"),
@@ -27,7 +27,7 @@ RULES = [
     (r"^NewWorkerPool$", "C12 C08 C19"), (r"^WorkerPool_", "C12 C08"),
     (r"^(NewResult|R)$", "C17 C16 C15"), (r"^NewErrorResult$", "C17"), (r"^Result_(IsError|Value|Error)$", "C17 C15"),
     (r"^Result_(Bind|MustBind)$", "C16"), (r"^SharedStore_(Bind|MustBind)$", "C16"),
-    (r"^Result_", "C15"), (r"^(ToSlice|As|MustAs)$", "C15"),
+    (r"^Result_", "C15"), (r"^ToSlice$", "C15 C06 C07"), (r"^(As|MustAs)$", "C15"),
     (r"^SharedStore_Get(String|Int|Float64|Bool|Slice|Map)", "C15 C13"),
     (r"^SharedStore_", "C13 C14"), (r"^NewSharedStore$", "C14"),
     (r"^BatchError_Error$", ""),
